@@ -31,6 +31,12 @@ fn workloads() -> Vec<(Cfg, Vec<Value>)> {
     // a merge whose own meta.json replacement may fail, a collection and a reload BEFORE the next commit
     let g = || json!({"op":"gc"});
     out.push((c1.clone(), vec![a(1, "a"), a(2, "b"), a(3, "a"), c(), d("a"), a(4, "c"), c(), d("b"), c(), g(), json!({"op":"merge"}), g(), a(5, "b"), g(), d("c"), c(), g(), a(6, "a"), c()]));
+    // large stored documents in ONE segment with small doc-store blocks: the doc-store compressor thread
+    // writes many blocks, most of them neither the first nor the last
+    let mut c5 = Cfg::default();
+    c5.blocksize = 2048;
+    let big = |i: u64, t: &str| json!({"op":"add","id":i,"t":t,"v":(i % 5) as i64,"pad":700});
+    out.push((c5, vec![big(1, "a"), big(2, "b"), big(3, "c"), big(4, "a"), big(5, "b"), big(6, "c"), big(7, "a"), big(8, "b"), c(), big(9, "c"), big(10, "a"), big(11, "b"), d("a"), c()]));
     out
 }
 
@@ -181,6 +187,22 @@ fn main() {
     std::panic::set_hook(Box::new(|_| {}));
     if a.pos.get(0).map(|s| s.as_str()) == Some("f40") {
         run_f40(&tracer);
+        tracer.flush();
+        return;
+    }
+    if a.pos.get(0).map(|s| s.as_str()) == Some("storeblocks") {
+        // every transient fault in a write / flush / terminate of a doc-store file of the workload
+        // with many doc-store blocks per segment; the writer is kept, the commit is retried
+        let (cfg, ops) = &wl[4];
+        let sink = Tracer::sink();
+        let (n, oplog) = run_one(&sink, cfg, ops, None, "keep", json!({}), true);
+        for (k, op, class) in &oplog {
+            if class != "store" || !(*op == "write" || *op == "flush" || *op == "terminate") {
+                continue;
+            }
+            let plan = FaultPlan { k: *k, permanent: false, skip_locks: true, ..Default::default() };
+            run_one(&tracer, cfg, ops, Some(plan), "keep", json!({"workload":4,"k":k,"permanent":false,"policy":"keep","n":n,"storeblocks":true,"fop":op}), false);
+        }
         tracer.flush();
         return;
     }
